@@ -59,10 +59,11 @@ inductive FSel | first | fin (n : Nat) | afterFins | sync | move
 deriving Repr
 
 structure D where
-  cfg : Cfg := ⟨false, 0, 0, false, false, 1, true, false, false, false⟩
+  cfg : Cfg := ⟨false, 0, 0, false, false, 1, true, false, false, false, false⟩
   st : St := init FS.empty
   nfin : Nat := 0
   fault : Option (Fault × FSel) := none
+  unreadable : Bool := false     -- round 11: every read of a last byte fails (`Fault.rdErr` in every slot not hit by `fault`)
   disc : Nsq.Model.ToFileDisc.D := {}
 
 def stateLine (d : D) : String × D :=
@@ -74,6 +75,11 @@ def stateLine (d : D) : String × D :=
 def noFault : Nat → Fault := fun _ => .ok
 
 def ioAt (t : Nat) (k : Fault) : Nat → Fault := fun i => if i = t then k else .ok
+
+/-- the schedule without an injected stop: all `ok`, or (files unreadable) all `rdErr` -/
+def baseIo (unreadable : Bool) : Nat → Fault := fun _ => if unreadable then .rdErr else .ok
+
+def ioAtB (unreadable : Bool) (t : Nat) (k : Fault) : Nat → Fault := fun i => if i = t then k else baseIo unreadable i
 
 def newFins (st0 s : St) : Nat := s.finished.length - st0.finished.length
 
@@ -123,11 +129,11 @@ def resolve (f : (Nat → Fault) → St) (st0 : St) : FSel → Option Nat
 def runEv (d : D) (evs : List (Ev × Bool)) : St × String :=
   let f := fun io => run d.cfg io d.st evs
   match d.fault with
-  | none => (f noFault, "")
+  | none => (f (baseIo d.unreadable), "")
   | some (k, sel) =>
     match resolve f d.st sel with
-    | none => (f noFault, "")            -- the event has no such primitive: nothing was injected
-    | some t => (f (ioAt t k), "")
+    | none => (f (baseIo d.unreadable), "")            -- the event has no such primitive: nothing was injected
+    | some t => (f (ioAtB d.unreadable t k), "")
 
 def b01 (s : String) : Option Bool := if s = "1" then some true else if s = "0" then some false else none
 
@@ -138,20 +144,33 @@ def tfStep (d : D) (ws : List String) : String × D :=
   | ["conf", gz, rs, ri, wd, se, mif, hr] =>
     match b01 gz, rs.toNat?, ri.toInt?, b01 wd, b01 se, mif.toNat?, b01 hr with
     | some gz, some rs, some ri, some wd, some se, some mif, some hr =>
-      ("ok", { d with cfg := ⟨gz, rs, ri, wd, se, mif, hr, false, false, false⟩, st := init FS.empty, nfin := 0 })
+      ("ok", { d with cfg := ⟨gz, rs, ri, wd, se, mif, hr, false, false, false, false⟩, st := init FS.empty, nfin := 0 })
     | _, _, _, _, _, _, _ => ("bad-op", d)
   | ["conf", gz, rs, ri, wd, se, mif, hr, cc] =>   -- cc: Close() clears f.out after a successful move (fix F44), probed on the real code
     match b01 gz, rs.toNat?, ri.toInt?, b01 wd, b01 se, mif.toNat?, b01 hr, b01 cc with
     | some gz, some rs, some ri, some wd, some se, some mif, some hr, some cc =>
-      ("ok", { d with cfg := ⟨gz, rs, ri, wd, se, mif, hr, cc, false, false⟩, st := init FS.empty, nfin := 0 })
+      ("ok", { d with cfg := ⟨gz, rs, ri, wd, se, mif, hr, cc, false, false, false⟩, st := init FS.empty, nfin := 0 })
     | _, _, _, _, _, _, _, _ => ("bad-op", d)
   -- ---- c19a block (audit 7 C5/C4): ow = the router writes body+"\n" with one Write (fix F46), sl = updateFile seals a
   -- torn tail before appending (fix F47); both probed on the real code (harness/e8/tofile_lines_test.go)
   | ["conf", gz, rs, ri, wd, se, mif, hr, cc, ow, sl] =>
     match b01 gz, rs.toNat?, ri.toInt?, b01 wd, b01 se, mif.toNat?, b01 hr, b01 cc, b01 ow, b01 sl with
     | some gz, some rs, some ri, some wd, some se, some mif, some hr, some cc, some ow, some sl =>
-      ("ok", { d with cfg := ⟨gz, rs, ri, wd, se, mif, hr, cc, ow, sl⟩, st := init FS.empty, nfin := 0 })
+      ("ok", { d with cfg := ⟨gz, rs, ri, wd, se, mif, hr, cc, ow, sl, false⟩, st := init FS.empty, nfin := 0, unreadable := false })
     | _, _, _, _, _, _, _, _, _, _ => ("bad-op", d)
+  -- ---- round 11 (tools3-c19, F47b): rw = sealTornTail answers a failed READ of the last byte with a warning and appends
+  -- unsealed (1) instead of returning the error = exit (0 = committed F47; a line without the field means 0)
+  | ["conf", gz, rs, ri, wd, se, mif, hr, cc, ow, sl, rw] =>
+    match b01 gz, rs.toNat?, ri.toInt?, b01 wd, b01 se, mif.toNat?, b01 hr, b01 cc, b01 ow, b01 sl, b01 rw with
+    | some gz, some rs, some ri, some wd, some se, some mif, some hr, some cc, some ow, some sl, some rw =>
+      ("ok", { d with cfg := ⟨gz, rs, ri, wd, se, mif, hr, cc, ow, sl, rw⟩, st := init FS.empty, nfin := 0, unreadable := false })
+    | _, _, _, _, _, _, _, _, _, _, _ => ("bad-op", d)
+  -- from now on no existing file can be read by the tool (1) / every file can (0): the base schedule is all `rdErr` / all `ok`
+  | ["unreadable", b] =>
+    match b01 b with
+    | some b => ("ok", { d with unreadable := b })
+    | none => ("bad-op", d)
+  -- ---- end of round 11 block ----
   | ["extapp", dir, tmpl, rev, data] =>   -- another O_APPEND writer of the same plain file appends `data` with one write(2)
     match strOfHex tmpl, rev.toNat?, unhex data with
     | some tmpl, some rev, some data =>
